@@ -84,6 +84,19 @@ def harness(tier, seed):
             if not (lo <= v <= hi):
                 viol.append(("objective/bounds", {**info, "x": list(p)}, f"{v} not in [{lo}, {hi}]"))
                 break
+        # one permutation buffer modified in place between evaluations (what a local search does)
+        if n >= 2:
+            buf = np.array(list(range(n)), dtype=np.int64)
+            for _k in range(6):
+                a_, b_ = rng.sample(range(n), 2)
+                buf[a_], buf[b_] = buf[b_], buf[a_]
+                v = int(obj.evaluate(buf))
+                evals += 1
+                pb = buf.tolist()
+                want = sum(f[i][j] * d[pb[i]][pb[j]] for i in range(n) for j in range(n))
+                if v != want:
+                    viol.append(("objective/value-after-in-place-move", {**info, "x": pb}, f"evaluate={v} sum={want}"))
+                    break
         # storage type must not matter: same matrices in a wider type
         if len(samples) < 2:
             samples.append({"n": n, "lines": lines[:6], "dtype": str(inst.flows.dtype), "bounds": [lo, hi]})
